@@ -338,6 +338,8 @@ func extractC05(repo string, o *Out) {
 	} else if got := c05body(p, fd); got != "{ if _r[_p0].deadline == _r[_p1].deadline { return _r[_p0].id > _r[_p1].id } return _r[_p0].deadline < _r[_p1].deadline }" {
 		o.problem("timerHeap.Less body is %s", got)
 	}
+	// the heap ARRAY model: timerHeap's methods, the container/heap call sites, container/heap itself (c05heap.go)
+	heapArrayFacts(o, p)
 	// the driver's copies of the worker's select cases
 	mirror(o, p, "HHWheelTimer", "worker", "pendingAdd", "VerifWheel", "StepAdd")
 	mirror(o, p, "HHWheelTimer", "worker", "pendingDel", "VerifWheel", "StepDel")
